@@ -540,7 +540,15 @@ func (n *normalizer) text(a ast.Node) string {
 
 func (n *normalizer) calleeOf(call *ast.CallExpr) *types.Func {
 	var id *ast.Ident
-	switch f := ast.Unparen(call.Fun).(type) {
+	fun := ast.Unparen(call.Fun)
+	// explicit instantiation of a generic helper: h[T](..)
+	switch f := fun.(type) {
+	case *ast.IndexExpr:
+		fun = ast.Unparen(f.X)
+	case *ast.IndexListExpr:
+		fun = ast.Unparen(f.X)
+	}
+	switch f := fun.(type) {
 	case *ast.Ident:
 		id = f
 	case *ast.SelectorExpr:
